@@ -289,7 +289,9 @@ class SchemaValidator:
         self, path: str, args: Sequence[Argument], resolver: Callable[..., Any],
     ) -> None:
         try:
-            sig = signature(resolver)
+            # The executor calls `resolver` itself: do not look through
+            # `functools.wraps` (`__wrapped__`) at the function it decorates.
+            sig = signature(resolver, follow_wrapped=False)
         except (ValueError, TypeError):
             # In some cases (mostly C Extensions) this can fail, in this case
             # we fallback to the previous behaviour of not validating and
